@@ -25,6 +25,8 @@ import (
 	conf_v1 "github.com/nginx/kubernetes-ingress/pkg/apis/configuration/v1"
 	"github.com/nginx/kubernetes-ingress/pkg/apis/configuration/validation"
 	"github.com/nginx/kubernetes-ingress/pkg/apis/dos/v1beta1"
+	api_v1 "k8s.io/api/core/v1"
+	discovery_v1 "k8s.io/api/discovery/v1"
 	networking "k8s.io/api/networking/v1"
 	"k8s.io/client-go/tools/cache"
 	"k8s.io/client-go/tools/record"
@@ -358,6 +360,41 @@ func VerifC15ProbeVsrBackup() bool {
 	vsr.Namespace = "probe"
 	vsr.Spec.Upstreams = []conf_v1.Upstream{{Name: "u", Service: "main", Backup: "bak"}}
 	return newServiceReferenceChecker(false).IsReferencedByVirtualServerRoute("probe", "bak", vsr)
+}
+
+// VerifC15ProbeBackupEndpoints asks the real virtualServerRequiresEndpointsUpdate whether an EndpointSlice
+// change of the backup Service of an upstream updates the VirtualServer (false on /repo without fixes/F19c.diff).
+func VerifC15ProbeBackupEndpoints() bool {
+	vs := &conf_v1.VirtualServer{}
+	vs.Spec.Upstreams = []conf_v1.Upstream{{Name: "u", Service: "main", Backup: "bak"}}
+	lbc := &LoadBalancerController{}
+	return lbc.virtualServerRequiresEndpointsUpdate(&configs.VirtualServerEx{VirtualServer: vs}, "bak")
+}
+
+// VerifC15ProbeSliceDelete delivers the deletion of an EndpointSlice to the real handler and reports whether a
+// task for its Service is queued (false on /repo without fixes/F19b.diff: only the vanished slice is queued).
+func VerifC15ProbeSliceDelete() bool {
+	v := NewVerifC15(VerifC15Opts{})
+	svc := &api_v1.Service{}
+	svc.Namespace, svc.Name = "probe", "svc"
+	_ = v.Services.Add(svc)
+	sl := &discovery_v1.EndpointSlice{}
+	sl.Namespace, sl.Name = "probe", "svc-abcde"
+	sl.Labels = map[string]string{"kubernetes.io/service-name": "svc"}
+	createEndpointSliceHandlers(v.Lbc).DeleteFunc(sl)
+	q := v.Lbc.syncQueue.queue
+	found := false
+	for q.Len() > 0 {
+		t, quit := q.Get()
+		if quit {
+			break
+		}
+		if t.(task).Kind == service {
+			found = true
+		}
+		q.Done(t)
+	}
+	return found
 }
 
 // VerifC15FieldInventory lists, by reflection over the conf_v1 types reachable from VirtualServer,
